@@ -70,6 +70,8 @@ inductive Lex2 where
   | identU (u : Nat) (cs : Cps)            -- IDENT that starts with `u` / `U`
   | numF (sg ip : Cps) (d : Nat) (ds : Cps)   -- NUMBER with a fraction: sign? digits* `.` digits+
   | numS (sg : Cps) (d : Nat) (ds : Cps)   -- NUMBER, integer with optional sign
+  | pctG (sg : Cps) (b : NumBody)          -- PERCENTAGE with optional sign / fraction
+  | dimG (sg : Cps) (b : NumBody) (c : Nat) (cs : Cps)   -- DIMENSION with optional sign / fraction, plain unit
   | urangeI (u h : Nat) (hs : Cps) (h2 : Nat) (hs2 : Cps)   -- UNICODE-RANGE interval `U+0-7F`
 
 def Lex2.text : Lex2 → Cps
@@ -85,6 +87,8 @@ def Lex2.text : Lex2 → Cps
   | .identU u cs => u :: cs
   | .numF sg ip d ds => sg ++ (ip ++ 46 :: d :: ds)
   | .numS sg d ds => sg ++ d :: ds
+  | .pctG sg b => sg ++ (b.text ++ [37])
+  | .dimG sg b c cs => sg ++ (b.text ++ c :: cs)
   | .urangeI u h hs h2 hs2 => u :: 43 :: (h :: hs ++ 45 :: h2 :: hs2)
   | .uriQ u r l w1 q its w2 => u :: r :: l :: 40 :: (w1 ++ (q :: (flat its ++ q :: (w2 ++ [41]))))
 
@@ -101,6 +105,8 @@ def Lex2.typ : Lex2 → String
   | .identU _ _ => "IDENT"
   | .numF _ _ _ _ => "NUMBER"
   | .numS _ _ _ => "NUMBER"
+  | .pctG _ _ => "PERCENTAGE"
+  | .dimG _ _ _ _ => "DIMENSION"
   | .urangeI _ _ _ _ _ => "UNICODE-RANGE"
   | .uriQ _ _ _ _ _ _ _ => "URI"
 
@@ -123,6 +129,8 @@ def Lex2.WF : Lex2 → Prop
   | .identU u cs => IsU u ∧ ∀ x ∈ cs, inR identRest x = true
   | .numF sg ip d ds => IsSign sg ∧ (∀ c ∈ ip, isDigit c = true) ∧ ∀ c ∈ d :: ds, isDigit c = true
   | .numS sg d ds => IsSign sg ∧ ∀ c ∈ d :: ds, isDigit c = true
+  | .pctG sg b => IsSign sg ∧ b.WF
+  | .dimG sg b c cs => IsSign sg ∧ b.WF ∧ inR identStart c = true ∧ ∀ x ∈ cs, inR identRest x = true
   | .urangeI u h hs h2 hs2 => IsU u ∧ (∀ x ∈ h :: hs, inR hexq x = true) ∧ (h :: hs).length ≤ 6 ∧
       (∀ x ∈ h2 :: hs2, inR hexOnly x = true) ∧ (h2 :: hs2).length ≤ 6
   | .uriQ u r l w1 q its w2 => IsU u ∧ IsR r ∧ IsL l ∧ (∀ x ∈ w1, isWsC x = true) ∧ (q = 34 ∨ q = 39) ∧
@@ -299,6 +307,51 @@ theorem lex2_step (doC : Bool) (t : Lex2) (h : t.WF) (stop : Cps) (hs : Sep stop
       · decide
       · exact ne92_of_inR hexOnly (by decide) _ (hh2 _ (by simp))
       · exact ne92_of_inR hexOnly (by decide) _ (hh2 x (List.mem_cons_of_mem _ hx))
+  | pctG sg b =>
+    obtain ⟨hsg, hb⟩ := h
+    obtain ⟨_, hsgc⟩ := isSign_len sg hsg
+    obtain ⟨hchars, c0, b', hb0, hc0⟩ := numBody_chars b hb
+    have hne : sg ++ (b.text ++ [37]) ≠ [] := by rw [hb0]; simp
+    apply loop_step2 doC fuel (sg ++ (b.text ++ [37])) stop line col "PERCENTAGE" hne
+    · intro c t e
+      have hin : inR numChars c = true := by
+        cases sg with
+        | nil => rw [hb0] at e; simp only [List.nil_append, List.cons_append, List.cons.injEq] at e
+                 rw [← e.1]; exact dotDigit_numChars c0 hc0
+        | cons a r => simp only [List.cons_append, List.cons.injEq] at e; rw [← e.1]; exact hsgc a (by simp)
+      exact not_fast_of_ranges numChars (by decide) c hin
+    · have := scan_percentage_gen doC sg b stop hsg hb
+      have hl : (sg ++ (b.text ++ [37])).length = sg.length + b.text.length + 1 := by
+        simp only [List.length_append, List.length_cons, List.length_nil]; omega
+      rw [hl]
+      simpa [List.append_assoc] using this
+    · exact valueOf_plain _ _ _ (by decide) (by decide)
+  | dimG sg b c cs =>
+    obtain ⟨hsg, hb, hc, hcs⟩ := h
+    obtain ⟨_, hsgc⟩ := isSign_len sg hsg
+    obtain ⟨hchars, c0, b', hb0, hc0⟩ := numBody_chars b hb
+    have hne : sg ++ (b.text ++ c :: cs) ≠ [] := by rw [hb0]; simp
+    apply loop_step2 doC fuel (sg ++ (b.text ++ c :: cs)) stop line col "DIMENSION" hne
+    · intro c' t e
+      have hin : inR numChars c' = true := by
+        cases sg with
+        | nil => rw [hb0] at e; simp only [List.nil_append, List.cons_append, List.cons.injEq] at e
+                 rw [← e.1]; exact dotDigit_numChars c0 hc0
+        | cons a r => simp only [List.cons_append, List.cons.injEq] at e; rw [← e.1]; exact hsgc a (by simp)
+      exact not_fast_of_ranges numChars (by decide) c' hin
+    · have := scan_dimension_gen doC sg b c cs stop hsg hb hc hcs hs
+      have hl : (sg ++ (b.text ++ c :: cs)).length = sg.length + b.text.length + (c :: cs).length := by
+        simp only [List.length_append, List.length_cons]; omega
+      rw [hl]
+      simpa [List.append_assoc] using this
+    · apply valueOf_unesc _ _ _ (by decide) (by decide)
+      intro x hx
+      simp only [List.mem_append, List.mem_cons] at hx
+      rcases hx with hx | hx | rfl | hx
+      · exact ne92_of_inR numChars (by decide) _ (hsgc x hx)
+      · exact ne92_of_inR dotDigit (by decide) _ (hchars x hx)
+      · exact ne92_of_inR identStart (by decide) _ hc
+      · exact ne92_of_inR identRest (by decide) _ (hcs x hx)
   | numS sg d ds =>
     obtain ⟨hsg, hd⟩ := h
     obtain ⟨_, hsgc⟩ := isSign_len sg hsg
@@ -405,6 +458,28 @@ theorem lex2_head (t : Lex2) (h : t.WF) : ∃ c w, t.text = c :: w ∧ inR lexHe
   | identU u cs =>
     refine ⟨u, cs, rfl, ?_⟩
     rcases h.1 with rfl | rfl <;> decide
+  | pctG sg b =>
+    obtain ⟨hsg, hb⟩ := h
+    obtain ⟨_, c0, b', hb0, hc0⟩ := numBody_chars b hb
+    have h0 : inR lexHeads c0 = true := by
+      simp only [inR, dotDigit, List.any_cons, List.any_nil, Bool.or_false, Bool.or_eq_true, Bool.and_eq_true,
+        decide_eq_true_eq] at hc0
+      simp [inR, lexHeads]; omega
+    rcases hsg with rfl | rfl | rfl
+    · exact ⟨c0, b' ++ [37], by simp [Lex2.text, hb0], h0⟩
+    · exact ⟨43, b.text ++ [37], rfl, by decide⟩
+    · exact ⟨45, b.text ++ [37], rfl, by decide⟩
+  | dimG sg b c cs =>
+    obtain ⟨hsg, hb, _, _⟩ := h
+    obtain ⟨_, c0, b', hb0, hc0⟩ := numBody_chars b hb
+    have h0 : inR lexHeads c0 = true := by
+      simp only [inR, dotDigit, List.any_cons, List.any_nil, Bool.or_false, Bool.or_eq_true, Bool.and_eq_true,
+        decide_eq_true_eq] at hc0
+      simp [inR, lexHeads]; omega
+    rcases hsg with rfl | rfl | rfl
+    · exact ⟨c0, b' ++ c :: cs, by simp [Lex2.text, hb0], h0⟩
+    · exact ⟨43, b.text ++ c :: cs, rfl, by decide⟩
+    · exact ⟨45, b.text ++ c :: cs, rfl, by decide⟩
   | numS sg d ds =>
     obtain ⟨hsg, hd⟩ := h
     have hd0 := hd d (by simp)
